@@ -3,7 +3,8 @@ from core import *
 from abacuslib import *
 from wirelib import type_table, point_tables, coq_table
 
-RULE = ("whole sessions (establish + 1-3 payments, thorough: up to 6) run inside one process in which the customer value is "
+RULE = ("whole sessions (initial balances small, at the boundaries 0 / 2^63-1, and with a total above 2^63-1; establish + 1-3 "
+        "payments, thorough: up to 6) run inside one process in which the customer value is "
         "kept in memory, versus the same session - same customer and merchant RNG seeds, same merchant - in which the "
         "customer state is serialised and restored before step k, for EVERY step k (requested, inactive, ready, started, "
         "locked of every payment), also with a wrong merchant reply fed (and refused) right before the store point, and "
@@ -29,9 +30,17 @@ def run(run, h):
     nh = 3 if run.tier == "quick" else 12
     for hi in range(nh):
         cid = rng.randbytes(32)
-        cb, mb = rng.randrange(10, 2 ** 40), rng.randrange(10, 2 ** 40)
+        # balances: small, and - each balance being individually valid - channels whose TOTAL exceeds 2^63-1, channels at the
+        # boundaries 0 and 2^63-1 (a stored state must restore whatever valid balances it holds)
+        MAXB = 2 ** 63 - 1
+        choices = [(rng.randrange(10, 2 ** 40), rng.randrange(10, 2 ** 40)),
+                   (MAXB - rng.randrange(0, 50), MAXB - rng.randrange(0, 50)),
+                   (2 ** 62 + rng.randrange(0, 9), 2 ** 62 + rng.randrange(0, 9)),
+                   (rng.randrange(1, 100), MAXB - rng.randrange(100, 200)), (MAXB - rng.randrange(100, 200), rng.randrange(1, 100)),
+                   (0, rng.randrange(5, 2 ** 62)), (rng.randrange(5, 2 ** 62), 0)]
+        cb, mb = choices[hi] if hi < len(choices) and (run.tier != "quick" or hi < 2) else rng.choice(choices)
         npay = rng.randrange(1, 4) if run.tier == "quick" else rng.randrange(1, 7)
-        amounts = [rng.choice([1, -1, 0, 2, 5, -3, cb + 1]) for _ in range(npay)]
+        amounts = [rng.choice([1, -1, 0, 2, 5, -3, min(cb + 1, MAXB)]) for _ in range(npay)]
         sc_, sm_ = rng.randrange(2 ** 31), rng.randrange(2 ** 31)
         st0, base = session(h, M, cid, cb, mb, amounts, [], [], sc_, sm_)
         case0 = {"history": hi, "cb": cb, "mb": mb, "amounts": amounts, "seeds": [sc_, sm_]}
